@@ -200,7 +200,11 @@ func e2eQueries(r *gen.Rand, n int) []query.Q {
 		&query.Substring{Pattern: "foo"},
 		&query.Substring{Pattern: "Foo", CaseSensitive: true, Content: true},
 		&query.Substring{Pattern: "main", FileName: true},
-		re("fo+"), re("(?i)BAR"),
+		re("fo+"),
+		// two matches on one line, only one of them a symbol: the real searcher returns SymbolInfo = [sym, nil]
+		// (known finding C24-symbolinfo-nil, here reached through a real search); placed where ChunkMatches is on
+		&query.Or{Children: []query.Q{&query.Symbol{Expr: &query.Substring{Pattern: "Foo", CaseSensitive: true}}, &query.Substring{Pattern: "int", CaseSensitive: true}}},
+		re("(?i)BAR"),
 		&query.Symbol{Expr: &query.Substring{Pattern: "Foo", CaseSensitive: true}},
 		&query.Or{Children: []query.Q{&query.Symbol{Expr: &query.Substring{Pattern: "Foo"}}, &query.Substring{Pattern: "return"}}},
 		&query.And{Children: []query.Q{&query.Substring{Pattern: "foo"}, &query.Not{Child: &query.Substring{Pattern: "baz"}}}},
